@@ -325,7 +325,7 @@ def run(ctx):
     ctx.assumptions = ["a pre-built object instance handed to a store is passed through untouched (documented); only parse/construct routes are asserted",
                        "'refused' = any exception from the strict call; which exception class is C17's concern"]
     types = [(v, t) for v in ("2.0", "2.1") for t in G.top_types(v)]
-    per_type = max(1, ctx.n(300, 2500) // len(types))
+    per_type = max(1, ctx.n(300, 1200) // len(types))
 
     def body(args):
         ver, doc, seed_i = args
